@@ -1,2 +1,110 @@
-From CubedV Require Import Model.Util Model.Dag Model.DagObs.
-Lemma placeholder_c02 : sort_nat [3;1;2] = [1;2;3]. Proof. reflexivity. Qed.
+From CubedV Require Import Model.Util Model.Keys Model.Fusion Model.Memory Model.Dag.
+From CubedV Require Import Proofs.FusionProofs Proofs.DagProofs.
+
+(* T0: a requested array is never among the arrays a fusion step removes *)
+Theorem C02_requested_not_removed : forall (B : Type) (c : optcfg) (d : dag B) (o : opnode B) (a : name),
+  In a (requested c) -> ~ In a (removed_by B c d o).
+Proof. exact requested_not_removed. Qed.
+Print Assumptions C02_requested_not_removed.
+
+(* T1: one fusion step leaves the value of every surviving array unchanged *)
+Theorem C02_fuse_predecessors_preserves : forall (B : Type) (c : optcfg) (d : dag B) (o : opnode B)
+  (e0 : env B) (k : key),
+  wf_ops B (dops B d) -> In o (dops B d) ->
+  (forall p, prim B o = Some p -> op_unfused B p) ->
+  ~ In (fst k) (removed_by B c d o) ->
+  eval B (fuse_predecessors B c d o) e0 k = eval B d e0 k.
+Proof. exact fuse_predecessors_preserves. Qed.
+Print Assumptions C02_fuse_predecessors_preserves.
+
+(* T2: well-formedness is preserved when the visited op is still unfused (this side
+   condition is needed: see C02_fuse_predecessors_wf_needs_unfused), and ops other
+   than o are untouched or removed *)
+Theorem C02_fuse_predecessors_wf : forall (B : Type) (c : optcfg) (d : dag B) (o : opnode B),
+  wf_ops B (dops B d) -> In o (dops B d) ->
+  (forall p, prim B o = Some p -> op_unfused B p) ->
+  wf_ops B (dops B (fuse_predecessors B c d o)).
+Proof. exact fuse_predecessors_wf. Qed.
+Print Assumptions C02_fuse_predecessors_wf.
+
+Theorem C02_fuse_predecessors_wf_needs_unfused :
+  exists (c : optcfg) (d : dag unit) (o : opnode unit),
+    wf_ops unit (dops unit d) /\ In o (dops unit d) /\
+    ~ wf_ops unit (dops unit (fuse_predecessors unit c d o)).
+Proof.
+  exists WfCounterexample.ccfg, WfCounterexample.cdag, WfCounterexample.cop2.
+  exact WfCounterexample.fuse_predecessors_wf_needs_unfused.
+Qed.
+Print Assumptions C02_fuse_predecessors_wf_needs_unfused.
+
+Theorem C02_fuse_predecessors_others : forall (B : Type) (c : optcfg) (d : dag B) (o x : opnode B),
+  In x (dops B (fuse_predecessors B c d o)) -> oid B x <> oid B o -> In x (dops B d).
+Proof. exact fuse_predecessors_others. Qed.
+Print Assumptions C02_fuse_predecessors_others.
+
+(* T3: the property - the optimizer never changes the value of a requested array *)
+Theorem C02_optimize_preserves : forall (B : Type) (c : optcfg) (order : list nat) (d : dag B)
+  (e0 : env B) (a : name) (cs : list nat),
+  wf_ops B (dops B d) -> all_unfused B (dops B d) -> NoDup order ->
+  In a (requested c) ->
+  eval B (optimize B c order d) e0 (a, cs) = eval B d e0 (a, cs).
+Proof. exact optimize_preserves. Qed.
+Print Assumptions C02_optimize_preserves.
+
+(* T4: every requested array is still produced by an op of the same kind *)
+Theorem C02_requested_still_materialized : forall (B : Type) (c : optcfg) (order : list nat) (d : dag B)
+  (a : name) (o : opnode B),
+  wf_ops B (dops B d) -> In a (requested c) -> In o (dops B d) -> In a (outs B o) ->
+  exists o', In o' (dops B (optimize B c order d)) /\ oid B o' = oid B o /\ In a (outs B o')
+             /\ is_prim B o' = is_prim B o.
+Proof. exact requested_still_materialized. Qed.
+Print Assumptions C02_requested_still_materialized.
+
+(* non-vacuity: a 3-op chain  (input) -> 1 -> op 2 -> 2 -> op 3 -> 3  satisfies every
+   premise of T3, and the optimizer really fuses op 2 into op 3 *)
+Definition ex_p2 : primop nat :=
+  {| bw := true; fpred := true; fsucc := true; ntasks := 1; proj := 0; allowed := 0; reserved := 0;
+     nib := [1]; chunkmem := 0; srcs := [1];
+     kf := fun k => (fst k, [KLeaf (1, snd k)]);
+     fn := fun args => match args with [VLeaf b] => S b | _ => 0 end |}.
+Definition ex_p3 : primop nat :=
+  {| bw := true; fpred := true; fsucc := true; ntasks := 1; proj := 0; allowed := 0; reserved := 0;
+     nib := [1]; chunkmem := 0; srcs := [2];
+     kf := fun k => (fst k, [KLeaf (2, snd k)]);
+     fn := fun args => match args with [VLeaf b] => 2 * b | _ => 0 end |}.
+Definition ex_o1 : opnode nat := {| oid := 1; ins := []; outs := [1]; prim := None |}.
+Definition ex_o2 : opnode nat := {| oid := 2; ins := [1]; outs := [2]; prim := Some ex_p2 |}.
+Definition ex_o3 : opnode nat := {| oid := 3; ins := [2]; outs := [3]; prim := Some ex_p3 |}.
+Definition ex_dag : dag nat := {| dops := [ex_o1; ex_o2; ex_o3]; virtuals := [] |}.
+Definition ex_cfg : optcfg :=
+  {| requested := [3]; max_src := 4; max_nib := None; always_fuse := []; never_fuse := [] |}.
+
+Example C02_nonvacuous :
+  wf_ops nat (dops nat ex_dag) /\ all_unfused nat (dops nat ex_dag) /\ NoDup [1; 2; 3] /\
+  In 3 (requested ex_cfg) /\
+  map (oid nat) (dops nat (optimize nat ex_cfg [1; 2; 3] ex_dag)) = [1; 3] /\
+  length (dops nat (optimize nat ex_cfg [1; 2; 3] ex_dag)) = 2 /\
+  eval nat (optimize nat ex_cfg [1; 2; 3] ex_dag) (fun _ => 5) (3, [0]) = 12 /\
+  eval nat ex_dag (fun _ => 5) (3, [0]) = 12.
+Proof.
+  split; [|split; [|split; [|split; [|split; [|split; [|split]]]]]].
+  - split; [|split; [|split]].
+    + cbn. repeat constructor; cbn; intuition discriminate.
+    + cbn. repeat constructor; cbn; intuition discriminate.
+    + apply topo_iff. cbn. intuition congruence.
+    + intros x q Hx Hq. cbn in Hx. destruct Hx as [<-|[<-|[<-|[]]]]; cbn in Hq; try discriminate;
+        injection Hq as <-; (split; [|split]); cbn; auto.
+      * intros a H; exact H.
+      * intros k t l [<-|[]]. cbn. intros [<-|[]]. cbn. auto.
+      * intros a H; exact H.
+      * intros k t l [<-|[]]. cbn. intros [<-|[]]. cbn. auto.
+  - intros x q Hx Hq. cbn in Hx. destruct Hx as [<-|[<-|[<-|[]]]]; cbn in Hq; try discriminate;
+      injection Hq as <-; intros k; reflexivity.
+  - repeat constructor; cbn; intuition discriminate.
+  - left. reflexivity.
+  - vm_compute. reflexivity.
+  - vm_compute. reflexivity.
+  - vm_compute. reflexivity.
+  - vm_compute. reflexivity.
+Qed.
+Print Assumptions C02_nonvacuous.
